@@ -17,14 +17,14 @@ import gen_dynamic
 import rng as srng
 
 
-def _law_real(item):
+def _law_real(item, timeout=30):
     case, text = item
     law = {}
     n = 0
     calls = set()
 
     def run(_s):
-        r = dyn.run_case(case, text, c12._SCRATCH, timeout=30)
+        r = dyn.run_case(case, text, c12._SCRATCH, timeout=timeout)
         if "error" in r:
             return json.dumps({"error": r["error"]})
         return json.dumps([r["events"], r["ending"]])
@@ -90,7 +90,7 @@ def compose_core():
     cases = []
     beh = {"pre": [], "inv": [], "body": [["while", "T", [["take", 1]]]]}
     mon_draw = {"pre": [], "inv": [], "body": [["rand", 0, 1, "m"], ["wait"], ["rand", 1, 3, "n"], ["wait"], ["wait"]]}
-    mon_loop = {"pre": [], "inv": [], "body": [["while", "T", [["rand", 0, 2, "k"], ["wait"]]]]}
+    mon_loop = {"pre": [], "inv": [], "body": [["while", "T", [["rand", 0, 1, "k"], ["wait"]]]]}
 
     def sd(**kw):
         d = {"pre": [], "termWhen": [], "termSimWhen": [], "termAfter": [], "records": [], "monitors": [],
@@ -133,7 +133,7 @@ def compose_core():
         cases.append({
             "defs": [beh, mon_draw, mon_loop], "agents": [1], "sdefs": sdefs, "top": 1,
             "monitors": sorted(set(mons) | {2}), "records": [], "termWhen": [], "termSimWhen": [], "termAfter": [],
-            "maxSteps": 4, "dt": [1, 1], "table": {"T": [True], "F": [False], "p1": [True], "p2": [True], "p3": [True]},
+            "maxSteps": 3, "dt": [1, 1], "table": {"T": [True], "F": [False], "p1": [True], "p2": [True], "p3": [True]},
             "sched": [[1]], "impl": 0,
         })
     return cases
@@ -167,6 +167,11 @@ def main(tier):
     rows = c12.run_batch(ck, cases, need_actions=["Setup", "BehaviorResume", "Pick", "Finish"], run_real=False)
     texts = [r[1] for r in rows]
     reals = pmap(_law_real, list(zip(cases, texts)))
+    # a watchdog timeout under machine load must not become a verdict: such a case is run again, alone,
+    # with a generous limit; only a reproducible timeout is reported
+    for i, real in enumerate(reals):
+        if "law" in real and any("timeout" in k for k in real["law"] if k.startswith('{"error"')):
+            reals[i] = _law_real((cases[i], texts[i]), timeout=300)
     for (case, text, exps, _r), real in zip(rows, reals):
         if not exps:
             raise MachineryError("no behaviour of Dynamics.tla for a case")
